@@ -29,6 +29,7 @@ NextV ==
   /\ \/ \E d \in Ticks : VTick(d, TRUE)
      \/ \E d \in StaleTicks : VTick(d, FALSE)
      \/ \E v \in OracleVariants : SetOracle(v)
+     \/ \E v \in SwbVariants : SetSwb(v)
      \/ \E bn \in KBanks : KRefresh(bn)
      \/ \E bn \in KBanks, bor \in KBorrowed : KInterest(bn, bor)
      \/ \E bn \in SBanks : SRefresh(bn)
